@@ -94,6 +94,67 @@ CHECKS["C20"] = (
     "claims exactness for integers and ratios); the value is compared with tolerance 1e-9. Zero divisors are excluded.",
     "5/C20")
 
+CHECKS["C16"] = (
+    "Reader, Reader_MC, Reader_Trace",
+    "TLA+ pushdown automaton Reader.tla over character classes (verdict ok/eof/syntax, forms, spans, line/column under "
+    "LF/CRLF/CR) checked by TLC; TLC-enumerated strings with their allowed outcomes replayed into the real reader, and "
+    "prefixes/edits of real programs validated by Reader_Trace",
+    "TLC runs two automata in lock step over both representatives of every character class and over the three line-ending "
+    "conventions (verdicts, forms and spans must agree; every predicted span re-read alone gives the same form) and emits "
+    "every string up to length 4 (thorough: 5-6) over the delimiter/dispatch alphabet with the set of outcomes the property "
+    "allows; each is read by the real read_str (termination, exception class, line/col, only Lisp data, skeleton, spans, "
+    "re-reading the cut-out span). Prefixes and single-character edits of generated programs and of the bundled .lpy "
+    "sources go the other way through Reader_Trace.",
+    "Trusted: TLC; the class->character concretisation. Strict EOF classification only for the constructs the property "
+    "lists (unterminated collections/strings, end of input after quote, deref, unquote, metadata, tag); for syntax-quote, "
+    "#', #_, #?, lone # and lone backslash the specification allows eof, syntax error or nothing.",
+    "5/C16")
+CHECKS["C03"] = (
+    "PrintRead",
+    "TLA+ spec PrintRead.tla (printing scheme incl. the string-escape transducer and the reader's escape automaton) checked "
+    "by TLC for Read(Print(v)) = <<v>> and idempotence; TLC-emitted (value, print configuration) pairs replayed through the "
+    "real pr-str / read-string / read_str",
+    "TLC checks the design of the escape scheme and literal grammar on the value universe (strings over 19 escape-relevant "
+    "character classes, numbers, names, collections, tagged literals, Python collections, metadata) under the print-control "
+    "Vars, and rejects two wrong schemes (\\x escapes; greedy \\u reader without compensation). Every emitted case is "
+    "concretised, printed by the real pr-str, read back by read-string and read_str and compared: exactly one form, equal by "
+    "= and structurally (type tags, order, float bit pattern, NaN), metadata under *print-meta*, idempotence, determinism. "
+    "Random boundary doubles and random Unicode strings are checked with a bit/value-equality oracle.",
+    "Trusted: TLC; concretisation tables (two representatives per class, named doubles). The decimal digits of floats are "
+    "outside what TLA+ can represent: floats are opaque atoms in the spec and the oracle is bit equality of the real objects.",
+    "5/C03")
+CHECKS["C19"] = (
+    "Bencode, Bencode_Trace, PrintRead (codec views)",
+    "TLA+ spec Bencode.tla (sender, network delivering arbitrary chunks, receiver buffer, DecodeAll) model-checked by TLC, "
+    "every (buffer, chunk) edge replayed into the real encode/decode/decode-all and the nREPL accumulate-and-decode loop; "
+    "random streams cut at every byte validated by Bencode_Trace; EDN/JSON round trips from the PrintRead universe",
+    "TLC proves on all streams of up to 3 messages that the decoded messages are always a prefix of the sent ones, the buffer "
+    "is exactly the undecoded suffix, and decode(encode(m)) = m, and rejects three wrong decoder models; every edge of the "
+    "state graph (every cut sequence is a path over these edges) is replayed through the real bencode functions. Real "
+    "streams cut at every byte position are validated by the trace specification. EDN and JSON: every value of the codec's "
+    "domain from the PrintRead universe is written and read back through edn/read-string, the Lisp reader and json/read-str "
+    "and compared with the specification (JSON up to the documented key/collection coercions, JsonNorm).",
+    "Trusted: TLC; byte-class concretisation. Values the EDN writer rejects (decimals, ratios) and JSON keys outside the "
+    "documented coercion (non keyword/symbol/string) are outside the codecs' domains.",
+    "5/C19")
+CHECKS["C06"] = (
+    "LazySeq, LazySeqImpl, LazySeq_Trace, LazySeqImpl_Trace, LazySeqDemand",
+    "TLA+ specs LazySeq.tla (required) and LazySeqImpl.tla (seq.rs mechanism: GIL, re-entrant mutex, four-state cell) "
+    "model-checked by TLC in lock step (simulation, deadlock freedom, termination); TLC-generated scenarios replayed with "
+    "real threads in child interpreters and the recorded traces validated by TLC; demand histories replayed on instrumented sources",
+    "TLC checks for 2-3 threads x 2-3 cells that the mechanism (with try-lock + GIL release and generator restored on error) "
+    "simulates the required behaviour: producer at most once, same elements for all consumers, nothing beyond demand, a "
+    "throwing producer never leaves a done cell, no deadlock, termination under weak fairness; the two deviation models of "
+    "the pinned code (lock under GIL; error leaves Computing) are rejected. TLC-generated scenarios (who calls what, when the "
+    "producer parks / throws / re-enters) run with real threads on the real lazy-seq in watchdog-supervised child "
+    "interpreters; the recorded call/return/producer events are validated by LazySeq_Trace. All single-consumer demand "
+    "histories up to length 4 (thorough: 6) over 12 constructs are replayed on instrumented sources and the exact number of "
+    "realized source elements is compared with the specification's Need table.",
+    "Trusted: TLC; the child driver's event log (sequence numbers under one lock); the watchdog (a child counts as frozen "
+    "only after 20 s without CPU use and without runnable threads). Steering towards TLC's interleaving uses timing, verdicts "
+    "never do. The Rust memory model is not modelled: only the lock/GIL protocol.",
+    "5/C06")
+
 NOT_APPLICABLE = []
 
 
